@@ -71,7 +71,7 @@ structure DTable where
 abbrev Db := List DTable
 
 def createCol (c : Col) : DCol :=
-  { name := c.name, ty := ddlTy c.ty, nullable := c.nullable,
+  { name := c.name, ty := declTy c.ty, nullable := c.nullable,
     dflt := c.dflt.map (fun d => sqliteStore (ddlDefault d)), pk := c.pk }
 
 def createTable (t : Table) : DTable :=
